@@ -283,12 +283,18 @@ func c04Run(c *core.Ctx) {
 	cfgs := c04Cfgs(c.Index)
 	w := NewWorld(h.Tag, cfgs)
 	fail := func(site, clause, trigger, detail string) { c.Violate(site, "setup:"+clause, trigger, detail) }
-	for bi, b := range h.Blocks {
-		if _, ok := w.ApplyBlock(b, fail); !ok {
-			return
+	for bi := -1; bi < len(h.Blocks); bi++ {
+		if bi >= 0 {
+			if _, ok := w.ApplyBlock(h.Blocks[bi], fail); !ok {
+				return
+			}
+		} else if c.Index%4 != 0 {
+			continue // every fourth history also throws its claims at the still empty instances
+		} else {
+			c.Count("empty_accumulator_states", 1)
 		}
 		// hostile input at about every other state, always at the last one
-		if bi != len(h.Blocks)-1 && c.Rng.Intn(2) == 0 {
+		if bi >= 0 && bi != len(h.Blocks)-1 && c.Rng.Intn(2) == 0 {
 			continue
 		}
 		f := w.M.Forest()
@@ -318,7 +324,11 @@ func c04Run(c *core.Ctx) {
 			}
 			scn := func(cfg *InstCfg) func(entry string) {
 				return func(entry string) {
-					c.SetScenario(c04Scenario{History: &h, UpTo: bi + 1, Cfg: cfg, Entry: entry, Claim: cl.JSON(), Adds: nadds})
+					upTo := bi + 1
+					if bi < 0 {
+						upTo = -1 // the empty accumulator, before the first block
+					}
+					c.SetScenario(c04Scenario{History: &h, UpTo: upTo, Cfg: cfg, Entry: entry, Claim: cl.JSON(), Adds: nadds})
 				}
 			}
 			c04Stump(c, w.Stump, cl, adds, "", scn(nil))
@@ -371,8 +381,9 @@ func synthLeafCount(c *core.Ctx) uint64 {
 
 func c04Synth(c *core.Ctx) {
 	n := synthLeafCount(c)
-	if n == 0 {
-		n = 1
+	if c.Index%16 == 0 {
+		n = 0 // the empty accumulator is a well-formed state too: no leaves, no roots
+		c.Count("empty_accumulator_states", 1)
 	}
 	tag := uint64(c.Seed)<<32 | uint64(c.Index) | 1<<60
 	var roots []Hash
@@ -479,7 +490,7 @@ func c04Replay(c *core.Ctx, raw json.RawMessage) {
 	w := NewWorld(s.History.Tag, cfgs)
 	fail := func(site, clause, trigger, detail string) { c.Violate(site, "setup:"+clause, trigger, detail) }
 	for bi, b := range s.History.Blocks {
-		if bi >= s.UpTo && s.UpTo > 0 {
+		if s.UpTo < 0 || (bi >= s.UpTo && s.UpTo > 0) {
 			break
 		}
 		if _, ok := w.ApplyBlock(b, fail); !ok {
